@@ -55,10 +55,10 @@ func (p *refParser) peek() int {
 	return -1
 }
 
-// literal = ( letter | [number _ -] (flagged) ) { letter | number | _ | - | . }
+// literal = ( letter | [number _ - .] (flagged: lexical start of a LITERAL is not documented) ) { letter | number | _ | - | . }
 func (p *refParser) literal() (string, bool) {
 	st := p.i
-	if p.i >= len(p.s) || !refIsLiteralByte(p.s[p.i]) || p.s[p.i] == '.' {
+	if p.i >= len(p.s) || !refIsLiteralByte(p.s[p.i]) {
 		return "", false
 	}
 	if !refIsLetter(p.s[p.i]) {
